@@ -250,7 +250,7 @@ def _split_fields(s, ms):
     return parts
 
 
-def norm_macros(text, m):
+def norm_macros(text, m, prefixes=()):
     edits = []
     for mm in re.finditer(r"\b(format|debug_assert|assert|panic|unreachable|unimplemented|todo)!\s*\(", m):
         name = mm.group(1)
@@ -269,6 +269,8 @@ def norm_macros(text, m):
         else:
             new = "verif_panic((" + inner + "))"
             kind = "norm:N2"
+        for p in sorted(prefixes, key=len, reverse=True):
+            new = re.sub(r"(?<![\w:])" + re.escape(p), "", new)
         edits.append(Edit(s, text[s : c + 1], new, kind))
     # nested macros (format! inside panic!) would overlap; keep outermost only
     edits.sort(key=lambda e: e.off)
@@ -543,7 +545,7 @@ def gen_fn(d, strip_paths, mode="verify", contract_text=None, vacuity=False):
             edits.append(Edit(mm.start(1) - 1, "&" + x, "verif_ref_" + x, "norm:N4"))
             edits.append(Edit(lo + 1, "", " let " + x + " = *verif_ref_" + x + ";", "norm:N4"))
 
-    edits.extend(norm_macros(text, m))
+    edits.extend(norm_macros(text, m, strip_paths))
     edits.extend(norm_closure_underscore(text, m))
     edits.extend(norm_let_chains(text, m, body_open, body_close))
     macro_spans = [(x.off, x.off + len(x.old)) for x in edits if x.kind in ("norm:N1", "norm:N2")]
